@@ -118,7 +118,8 @@ impl Stage for EarlySearch {
             if collect(&nodes[0], true, Duration::from_secs(120)).await.is_none() {
                 return Outcome::violation("setup-announce-hangs", "announcing search of the existing network does not end");
             }
-            net.settle().await;
+            // the announce datagrams are sent when the stream ends and need up to the largest latency
+            tokio::time::sleep(Duration::from_secs(2)).await;
             // fresh node N and its twin N2
             let k = (c.contacts as usize).clamp(1, m);
             let mut contacts: Vec<SocketAddr> = addrs[..k].to_vec();
@@ -132,16 +133,25 @@ impl Stage for EarlySearch {
             let start = net.now();
             // learn the bootstrap duration from the twin (same contacts, same latency table)
             let tw = twin.clone();
+            let net3 = net.clone();
             let late = tokio::spawn(async move {
                 let ok = tw.bootstrapped().await;
-                (ok, collect(&tw, false, Duration::from_secs(120)).await)
+                let booted = net3.now();
+                (ok, collect(&tw, false, Duration::from_secs(120)).await, booted)
             });
             // run the twin to completion first, then start N on a comparable schedule
-            let (ok, r_late) = match within(Duration::from_secs(900), late).await {
+            let (ok, r_late, booted) = match within(Duration::from_secs(900), late).await {
                 Some(Ok(x)) => x,
                 _ => return Outcome::violation("setup-twin-hangs", "twin node did not bootstrap and search within 900 s"),
             };
-            let boot_ms = (net.now() - start).as_millis() as u64;
+            let boot_ms = (booted - start).as_millis() as u64;
+            if std::env::var_os("VERIF_DEBUG").is_some() {
+                eprintln!("twin: ok={ok} r_late={r_late:?} boot_ms={boot_ms}");
+                for e in net.log().iter().filter(|e| e.from == n2_addr || e.to == n2_addr || crate::bcodec::KMsg::decode(&e.bytes).map(|m| matches!(m.body, crate::bcodec::KBody::Query(crate::bcodec::KQuery::Announce { .. }) | crate::bcodec::KBody::Error { .. })).unwrap_or(false)) {
+                    let d = match crate::bcodec::KMsg::decode(&e.bytes) { Ok(crate::bcodec::KMsg { body: crate::bcodec::KBody::Resp(r), .. }) => format!("RESP token={} values={:?} nodes={}", r.token.is_some(), r.values, r.nodes.len() + r.nodes6.len()), Ok(m) => format!("{:?}", m.body).chars().take(60).collect(), Err(_) => "??".into() };
+                    eprintln!("  {} {:?} {} -> {} {}", e.ms(), e.kind, e.from, e.to, d);
+                }
+            }
             let Some(r_late) = r_late else { return Outcome::violation("late-search-hangs", "a search issued right after bootstrapped() does not end within 120 s") };
             if !ok {
                 return Outcome::violation("setup-twin-not-bootstrapped", "twin bootstrapped() returned false");
